@@ -450,4 +450,139 @@ theorem parseV3_body (t c i pa ha g0 g1 : Nat) (mp : Bytes) (ms : List Pgp.MPI)
   rw [if_neg hl, List.take_left' (be64_length i), List.drop_left' (be64_length i)]
   simp only [hpa', hha, Bool.not_true, Bool.false_eq_true, if_false, hm, beNat_be64 i hi, hc']
 
+-- the nesting fuel of embedded signatures is never what ends the parse ------------------------------------------------
+theorem subLen_shorter (area after : Bytes) (len : Nat) (h : subLen area = some (len, after)) :
+    after.length < area.length := by
+  cases area with
+  | nil => simp [subLen] at h
+  | cons b0 rest =>
+    simp only [subLen] at h
+    by_cases h1 : b0 < 192
+    · simp [h1] at h; rw [← h.2]; simp
+    · by_cases h2 : b0 < 255
+      · simp only [h1, h2, if_true, if_false] at h
+        cases rest with
+        | nil => simp at h
+        | cons b1 r' => simp at h; rw [← h.2]; simp; omega
+      · simp only [h1, h2, if_false] at h
+        rcases rest with _ | ⟨b1, _ | ⟨b2, _ | ⟨b3, _ | ⟨b4, r'⟩⟩⟩⟩
+        · simp at h
+        · simp at h
+        · simp at h
+        · simp at h
+        · simp at h; rw [← h.2]; simp; omega
+
+theorem subEmbedded_congr (e1 e2 : Bytes → R Sig) (f : Fields) (d : Bytes) (h : e1 d = e2 d) :
+    subEmbedded e1 f d = subEmbedded e2 f d := by
+  unfold subEmbedded; rw [h]
+
+theorem applySub_congr (e1 e2 : Bytes → R Sig) (f : Fields) (isHashed : Bool) (t : Nat) (c : Bool) (d : Bytes)
+    (h : e1 d = e2 d) : applySub e1 f isHashed t c d = applySub e2 f isHashed t c d := by
+  unfold applySub; rw [subEmbedded_congr e1 e2 f d h]
+
+/-- the loop asks the embedded-signature parser only about data shorter than the area -/
+theorem subLoop_congr (e1 e2 : Bytes → R Sig) (isHashed : Bool) (N : Nat) (he : ∀ d : Bytes, d.length < N → e1 d = e2 d) :
+    ∀ (n : Nat) (f : Fields) (area : Bytes), area.length ≤ N → subLoop e1 n f isHashed area = subLoop e2 n f isHashed area
+  | 0, _, _, _ => rfl
+  | n + 1, f, area, hN => by
+    unfold subLoop
+    split
+    · rfl
+    · split
+      · rfl
+      · rename_i len after hsl
+        have hlt := subLen_shorter _ _ _ hsl
+        split
+        · rfl
+        · split
+          · rfl
+          · rename_i t0 data htk
+            have hdl : data.length < N := by
+              have h1 : (after.take len).length ≤ after.length := by rw [List.length_take]; omega
+              rw [htk] at h1; simp at h1; omega
+            rw [applySub_congr e1 e2 f isHashed (t0 % 128) (decide (t0 ≥ 128)) data (he data hdl)]
+            cases applySub e2 f isHashed (t0 % 128) (decide (t0 ≥ 128)) data with
+            | ok f' =>
+              exact subLoop_congr e1 e2 isHashed N he n f' (after.drop len) (by rw [List.length_drop]; omega)
+            | unsupported => rfl
+            | structural => rfl
+            | eof => rfl
+
+theorem parseSubs_congr (e1 e2 : Bytes → R Sig) (f : Fields) (isHashed : Bool) (area : Bytes) (N : Nat)
+    (he : ∀ d : Bytes, d.length < N → e1 d = e2 d) (hN : area.length ≤ N) :
+    parseSubs e1 f isHashed area = parseSubs e2 f isHashed area := by
+  unfold parseSubs; rw [subLoop_congr e1 e2 isHashed N he _ f area hN]
+
+theorem parseTail_congr (e1 e2 : Bytes → R Sig) (pa : Nat) (f1 : Fields) (r3 : Bytes) (N : Nat)
+    (he : ∀ d : Bytes, d.length < N → e1 d = e2 d) (hN : r3.length ≤ N) :
+    parseTail e1 pa f1 r3 = parseTail e2 pa f1 r3 := by
+  unfold parseTail
+  split
+  · rename_i u1 u0 r4
+    split
+    · rfl
+    · rw [parseSubs_congr e1 e2 f1 false (r4.take (u1 * 256 + u0)) N he (by
+        have : (r4.take (u1 * 256 + u0)).length ≤ r4.length := by rw [List.length_take]; omega
+        simp at hN; omega)]
+  · rfl
+
+theorem parseAfterHead_congr (e1 e2 : Bytes → R Sig) (t pa ha l1 l0 : Nat) (r2 : Bytes) (N : Nat)
+    (he : ∀ d : Bytes, d.length < N → e1 d = e2 d) (hN : r2.length ≤ N) :
+    parseAfterHead e1 t pa ha l1 l0 r2 = parseAfterHead e2 t pa ha l1 l0 r2 := by
+  unfold parseAfterHead
+  split
+  · rfl
+  · split
+    · rfl
+    · split
+      · rfl
+      · have h1 : (r2.take (l1 * 256 + l0)).length ≤ N := by rw [List.length_take]; omega
+        rw [parseSubs_congr e1 e2 _ true (r2.take (l1 * 256 + l0)) N he h1]
+        cases parseSubs e2 { sigType := t, pubAlgo := pa, hashAlgo := ha, hashed := r2.take (l1 * 256 + l0) } true (r2.take (l1 * 256 + l0)) with
+        | ok f1 => exact parseTail_congr e1 e2 pa f1 _ N he (by rw [List.length_drop]; omega)
+        | unsupported => rfl
+        | structural => rfl
+        | eof => rfl
+
+theorem parseWith_congr (e1 e2 : Bytes → R Sig) (body : Bytes) (he : ∀ d : Bytes, d.length < body.length → e1 d = e2 d) :
+    parseWith e1 body = parseWith e2 body := by
+  cases body with
+  | nil => rfl
+  | cons v r1 =>
+    simp only [parseWith]
+    by_cases hv : v ≠ 4
+    · simp [hv]
+    · simp only [hv, if_false]
+      rcases r1 with _ | ⟨t, _ | ⟨pa, _ | ⟨ha, _ | ⟨l1, _ | ⟨l0, r2⟩⟩⟩⟩⟩
+      · rfl
+      · rfl
+      · rfl
+      · rfl
+      · rfl
+      · exact parseAfterHead_congr e1 e2 t pa ha l1 l0 r2 (v :: t :: pa :: ha :: l1 :: l0 :: r2).length he (by simp; omega)
+
+/-- FUEL ADEQUACY: with more fuel than bytes the result does not depend on the fuel — an embedded signature is always
+    strictly shorter than the signature that carries it, so the nesting bound (`body.length + 1` in `parsePacket`) is
+    never what ends a parse -/
+theorem parse_fuel : ∀ (k : Nat) (body : Bytes) (f1 f2 : Nat), body.length ≤ k → body.length < f1 → body.length < f2 →
+    parse f1 body = parse f2 body
+  | 0, body, f1, f2, hk, h1, h2 => by
+    have : body = [] := List.eq_nil_of_length_eq_zero (by omega)
+    subst this
+    cases f1 with
+    | zero => simp at h1
+    | succ f1 => cases f2 with
+      | zero => simp at h2
+      | succ f2 => simp [parse, parseWith]
+  | k + 1, body, f1, f2, hk, h1, h2 => by
+    cases f1 with
+    | zero => omega
+    | succ f1 => cases f2 with
+      | zero => omega
+      | succ f2 =>
+        show parseWith (parse f1) body = parseWith (parse f2) body
+        apply parseWith_congr
+        intro d hd
+        exact parse_fuel k d f1 f2 (by omega) (by omega) (by omega)
+
 end WhatIs.Lemmas.PgpSig
